@@ -116,8 +116,8 @@ structure Env (S : Type) where
       non-terminals; handed over as data) -/
   recursive : Bool
   /-- `false`: the code as it is — `_query_list_` answers `(False, bank[cost_index])` for an existing bank
-      entry, also when `merge_program` emptied it (finding C12-F6: the element is then taken for the end of a
-      finite grammar and its successors are lost); `true`: the code after the proposed fix C12-F6
+      entry, also when `merge_program` emptied it (finding C12-F13: the element is then taken for the end of a
+      finite grammar and its successors are lost); `true`: the code after the proposed fix C12-F13
       (`return len(bank[cost_index]) == 0, bank[cost_index]`: an emptied entry is an allowed-empty index) -/
   fixEmptied : Bool := false
 
